@@ -21,7 +21,7 @@ ASSUMPTIONS = ["block rates in [0,1], multipliers in [0,10]; providers' units su
 UNPROVED = [
     "n-provider lower bound |paid_i - share_i*D| <= n*(1 + D*1e-18) after the running clamp: proved for the epoch bucket payout (bucket_amounts_fair, with fix F26) and for one pool's LPPD / depth-reward payout (pool_payouts_fair), any number of providers",
     "depth split: the per-pool upper bound (reward <= weighted share of the block distribution + rounding) is proved for any number of pools (depth_reward_le_weighted_share) and the unclamped lower bound per pool (pool_distribution_ge_weighted_share); the total weight td is the sum of the pools' weights up to n/2 units of 1e-18 (total_weight_is_weight_sum); the composition (share of the exact weight sum, all pools, with the remaining-amount clamp) is judged on every real EndBlocker (splitObservedOK), not stated as one theorem",
-    "ineligible accounts receive nothing: judged on every L1 hook (recipientsOK; for provider distributions per account and per pool: lppdSharesOK — each account gains the sum of its shares of the pools it is a provider OF), not proved as a theorem",
+    "ineligible accounts receive nothing: judged on every L1 hook (recipientsOK; for the epoch hook also against the harness's own ledger of accepted adds: eligibleByLedgerOK; for provider distributions per account and per pool: lppdSharesOK — each account gains the sum of its shares of the pools it is a provider OF), not proved as a theorem",
 ]
 MANIFEST = {
     "text": "Lean 4 theorems over exact models of the three payout collectors (sdk.Dec banker's rounding included): a provider's amount is within 1 base unit + 1e-18*D of its share for all magnitudes; pool payouts sum to at most rnd(rate*balance) for any number of providers; depth rewards sum to at most the block distribution; the epoch bucket amounts of any number of providers add up to at most the bucket and each is within 1 + (n+1)*B*1e-18 of its share (bucket_amounts_fair); the providers of one pool in an LPPD / depth-reward payout are each within (n+1)*(1 + D*1e-18) + 1/2 of their share (pool_payouts_fair). The L1 predicates epochSharesOK (every eligible provider's wallet gain) and splitObservedOK (per-pool depth rewards of one real EndBlocker) judge the hooks themselves. Tied to the Go collectors by L0/L1 differential execution with Lean-judged payout vectors.",
